@@ -1,4 +1,5 @@
 import IstioModel.C02.Queue
+import IstioModel.C02.Facts
 import IstioModel.C02.Theorems
 
 /-!
@@ -16,21 +17,7 @@ objects with any sharing between them.
 -/
 namespace IstioModel.C02
 
-/-! ## What a request says (the part the property protects) -/
-
-inductive Fact
-  | cfg (k : String) | adr (k : String) | wp (k : String) | forced
-  deriving DecidableEq, Repr
-
-def factsV (v : View) : List Fact :=
-  (keys v.configs).map .cfg ++ (keys v.addrs).map .adr ++ (keys v.wps).map .wp ++
-    (if v.forced then [.forced] else [])
-
-/-- Changed keys and the forced flag of the request behind a pointer (nothing for nil). -/
-def facts (h : Heap) (r : Option Ref) : List Fact :=
-  match viewAt h r with
-  | none => []
-  | some v => factsV v
+/-! ## What a request says (the part the property protects): see `Facts.lean` -/
 
 theorem mem_factsV (v : View) (x : Fact) :
     x ∈ factsV v ↔ (match x with
@@ -454,7 +441,7 @@ def inflAfterDeq (g : Ghost) : DeqRes → (Conn → Nat)
 
 def gInfl (g : Ghost) : Op → (Conn → Nat)
   | .deq => inflAfterDeq g (dequeueRes g.s)
-  | .done c => fun c' => if c' = c then (if (g.s.processing c).isSome then g.infl c - 1 else g.infl c) else g.infl c'
+  | .done c => fun c' => if c' = c then g.infl c - 1 else g.infl c'   -- independent of the model's tables
   | _ => g.infl
 
 def gstep (g : Ghost) (op : Op) : Ghost :=
@@ -701,7 +688,7 @@ theorem one_in_flight (h : Heap) (hwf : h.wf = true) (ops : List Op) (hok : OpsO
           simp [dequeueState, hq, this]
         · simp [hcc, dequeueState, hq, hn c']
     | done c =>
-      show (if c' = c then (if (g.s.processing c).isSome then g.infl c - 1 else g.infl c) else g.infl c') =
+      show (if c' = c then g.infl c - 1 else g.infl c') =
         ((markDone g.s c).processing c').isSome.toNat
       by_cases hcc : c' = c
       · subst hcc
